@@ -28,6 +28,9 @@ func init() {
 	RegisterInternalMessage[*UnwatchMessage]("UnwatchMessage", onUnwatchMessageReader, onUnwatchMessageWriter)
 }
 
+// nilMessageName 是 WriteMessage 为 nil 消息写入的保留消息名（不是合法的注册名）
+const nilMessageName = "<nil>"
+
 type MessageDesc struct {
 	typeOf      reflect.Type
 	messageName string
